@@ -5,9 +5,12 @@
 // kind=write: the same samples written through {virtual I/O, path, descriptor, descriptor into an existing container file};
 //             produced bytes must agree (apart from the file-name fields of SVX / MPC2K).
 // plus: sf_close closes a descriptor handed to sf_open_fd iff close_desc, and no other descriptor changes state.
-#include "vf_file.hpp"
+#include "vf_c03.hpp"
 #include <dirent.h>
 #include <fcntl.h>
+#include <signal.h>
+#include <sys/time.h>
+#include <sys/wait.h>
 using namespace vf ;
 
 static Ctx ctx ;
@@ -28,6 +31,8 @@ static Case gen_case ()
 	c.seti ("seed", (long long) *seedGen ()) ;
 	c.seti ("mut", *rc::gen::element (0, 0, 0, 1, 2, 3)) ;	// 0 valid, 1 truncated, 2 byte flipped, 3 header garbage
 	c.seti ("cut", *rangeOf<int> (0, 1000)) ;
+	c.seti ("bigchunk", *rc::gen::element (0, 0, 0, 17000, 40001, 70000)) ;	// an unknown chunk of that size spliced in before the audio (WAV / AIFF families, valid inputs)
+	c.seti ("id3", *rc::gen::element (0, 0, 0, 0, 10, 137)) ;	// an ID3v2 tag of that payload size in front of the file
 	c.seti ("lead", *rc::gen::element (1, 3, 4, 7, 64, 1001)) ; c.seti ("trail", *rc::gen::element (0, 1, 2, 13, 500)) ;
 	return c ;
 }
@@ -72,6 +77,20 @@ static Result run_read (const Case &c, Result r)
 		sf_close (f) ; bytes = m.data ;
 	}
 	int mut = (int) c.geti ("mut") ; size_t cut = bytes.empty () ? 0 : (size_t) c.geti ("cut") * bytes.size () / 1000 ;
+	long long big = c.geti ("bigchunk", 0) ; bool has_big = false ;
+	if (big && mut == 0)
+	{	std::vector<uint8_t> body ((size_t) big) ; for (auto &b : body) b = (uint8_t) rng.next () ; bool be = bytes.size () >= 4 && (memcmp (bytes.data (), "FORM", 4) == 0 || memcmp (bytes.data (), "RIFX", 4) == 0) ;
+		std::vector<uint8_t> ck = iff_chunk ("JUNK", body, be) ; has_big = iff_insert (bytes, "data", ck) || iff_insert (bytes, "SSND", ck) ;
+	}
+	r.classes.push_back (std::string ("bigchunk:") + (has_big ? "1" : "0")) ;
+	long long id3 = c.geti ("id3", 0) ; bool has_id3 = false ;
+	if (id3 && mut == 0 && !raw && (s.format & SF_FORMAT_TYPEMASK) == SF_FORMAT_WAV)
+	{	// an ID3v2.3 tag in front of the file (tag header: "ID3", version, flags, 28-bit sync-safe size), as tagging tools prepend it
+		std::vector<uint8_t> tag = { 'I', 'D', '3', 3, 0, 0, (uint8_t) ((id3 >> 21) & 0x7f), (uint8_t) ((id3 >> 14) & 0x7f), (uint8_t) ((id3 >> 7) & 0x7f), (uint8_t) (id3 & 0x7f) } ;
+		for (long long k = 0 ; k < id3 ; k++) tag.push_back ((uint8_t) (k % 5 == 0 ? 0 : 'a' + k % 20)) ;
+		bytes.insert (bytes.begin (), tag.begin (), tag.end ()) ; has_id3 = true ; r.sig.seti ("id3", 1) ;
+	}
+	r.classes.push_back (std::string ("id3:") + (has_id3 ? "1" : "0")) ;
 	if (!bytes.empty ())
 	{	if (mut == 1) bytes.resize (cut) ; else if (mut == 2) bytes [cut % bytes.size ()] ^= (uint8_t) (1 + rng.below (255)) ;
 		else if (mut == 3) for (int i = 0 ; i < 6 ; i++) { size_t span = bytes.size () > 4 ? std::min<size_t> (bytes.size () - 4, 60) : 0 ; bytes [span ? 4 + rng.below (span) : 0] = (uint8_t) rng.next () ; }
@@ -105,13 +124,30 @@ static Result run_read (const Case &c, Result r)
 		for (auto &ck : walk_iff (bytes)) if (ck.id == "data" || ck.id == "SSND") r.sig.seti ("data_odd", (long long) (ck.size & 1)) ;
 	}
 	// non-seekable pipe
-	bool do_pipe = mut == 0 && embeddable (s.format) && is_granular (s.format) && bytes.size () <= 60000 ;
+	bool do_pipe = mut == 0 && embeddable (s.format) && is_granular (s.format) && bytes.size () <= 900000 ;
 	if (do_pipe)
-	{	int p [2] ; if (pipe (p) == 0)
+	{	int p [2] ; if (pipe (p) == 0 && (bytes.size () <= 60000 || fcntl (p [1], F_SETPIPE_SZ, 1 << 20) >= (int) bytes.size ()))
 		{	size_t w = 0 ; while (w < bytes.size ()) { ssize_t k = write (p [1], bytes.data () + w, bytes.size () - w) ; if (k <= 0) break ; w += (size_t) k ; }
 			close (p [1]) ; SF_INFO i = mkinfo () ; SNDFILE *f = sf_open_fd (p [0], SFM_READ, &i, 1) ; observe (f, i, obs ["pipe"], vox) ; if (fcntl (p [0], F_GETFD) != -1) close (p [0]) ;
 		}
 	}
+	// the same pipe fed slowly by another process while a timer signal (handler installed without SA_RESTART) keeps interrupting the
+	// reader: interrupted reads are not end of data, the samples must still be the same
+	bool do_slow = do_pipe && (c.geti ("seed") % 4) == 0 && bytes.size () <= 200000 ;
+	if (do_slow)
+	{	int p [2] ; if (pipe (p) == 0)
+		{	fflush (nullptr) ; pid_t wr = fork () ;
+			if (wr == 0)
+			{	close (p [0]) ; size_t w = 0, step = bytes.size () / 6 + 1 ; while (w < bytes.size ()) { size_t n = std::min (step, bytes.size () - w) ; ssize_t k = write (p [1], bytes.data () + w, n) ; if (k <= 0) break ; w += (size_t) k ; usleep (1500) ; } _exit (0) ; }
+			close (p [1]) ;
+			struct sigaction sa, old ; memset (&sa, 0, sizeof (sa)) ; sa.sa_handler = [] (int) { } ; sigemptyset (&sa.sa_mask) ; sa.sa_flags = 0 ; sigaction (SIGALRM, &sa, &old) ;
+			struct itimerval tv, off ; memset (&tv, 0, sizeof (tv)) ; memset (&off, 0, sizeof (off)) ; tv.it_interval.tv_usec = 400 ; tv.it_value.tv_usec = 400 ; setitimer (ITIMER_REAL, &tv, nullptr) ;
+			SF_INFO i = mkinfo () ; SNDFILE *f = sf_open_fd (p [0], SFM_READ, &i, 1) ; observe (f, i, obs ["slowpipe"], vox) ;
+			setitimer (ITIMER_REAL, &off, nullptr) ; sigaction (SIGALRM, &old, nullptr) ;
+			if (fcntl (p [0], F_GETFD) != -1) close (p [0]) ; int st ; while (waitpid (wr, &st, 0) < 0 && errno == EINTR) { }
+		}
+	}
+	r.classes.push_back (std::string ("slowpipe:") + (do_slow ? "1" : "0")) ;
 	r.classes.push_back (std::string ("embed:") + (do_embed ? "1" : "0")) ; r.classes.push_back (std::string ("pipe:") + (do_pipe ? "1" : "0")) ; r.classes.push_back ("mut:" + std::to_string (mut)) ;
 	r.classes.push_back (std::string ("opened:") + (obs ["vio"].opened ? "1" : "0")) ;
 	r.nontrivial = N >= 1 && obs.size () >= 3 ;
@@ -121,8 +157,8 @@ static Result run_read (const Case &c, Result r)
 	for (auto &kv : obs)
 	{	if (kv.first == "vio") continue ; const Obs &o = kv.second ; r.sig.set ("route", kv.first) ;
 		if (o.opened != ref.opened) { Result x = fail ("route_open_outcome_differs", kv.first + ": " + o.describe () + "   vio: " + ref.describe ()) ; x.sig.set ("route", kv.first) ; return x ; }
-		if (!o.opened) { if (o.err != ref.err && kv.first != "embed" && kv.first != "pipe") { Result x = fail ("route_error_differs", kv.first + ": " + std::to_string (o.err) + " vio: " + std::to_string (ref.err)) ; x.sig.set ("route", kv.first) ; return x ; } continue ; }
-		bool pipe_route = kv.first == "pipe" ;
+		if (!o.opened) { if (o.err != ref.err && kv.first != "embed" && kv.first != "pipe" && kv.first != "slowpipe") { Result x = fail ("route_error_differs", kv.first + ": " + std::to_string (o.err) + " vio: " + std::to_string (ref.err)) ; x.sig.set ("route", kv.first) ; return x ; } continue ; }
+		bool pipe_route = kv.first == "pipe" || kv.first == "slowpipe" ;
 		bool info_same = o.info.samplerate == ref.info.samplerate && o.info.channels == ref.info.channels && o.info.format == ref.info.format && o.info.sections == ref.info.sections && (pipe_route || (o.info.frames == ref.info.frames && o.info.seekable == ref.info.seekable)) ;
 		if (!info_same) { Result x = fail ("route_info_differs", kv.first + ": " + o.describe () + "   vio: " + ref.describe ()) ; x.sig.set ("route", kv.first) ; return x ; }
 		if (o.got != ref.got || o.samples != ref.samples) { Result x = fail ("route_samples_differ", kv.first + ": " + o.describe () + "   vio: " + ref.describe ()) ; x.sig.set ("route", kv.first) ; return x ; }
